@@ -567,6 +567,7 @@ class StmtMixin:
         self.check_invariant(inv, frame, idx0 if is_for else None, label + "/init", it)
         # 2. havoc everything the body may write
         names, attrs, mutated = assigned_names(node.body + ([node.target] if is_for else []))
+        attrs = set(attrs) | set(inv.modifies)
         self.havoc(frame, names, attrs, mutated, inv)
         if is_for:
             j = z3.Int(path.fresh_name("j"))
